@@ -58,7 +58,8 @@ def gen_case(rng, index, tier):
     if optclass == '-i':
         stdin = rng.choice(['y\n', 'y\n', 'Y\n', 'n\n', ''])
     comps = []
-    if arg.get('lexdir') and optclass != '-i' and rng.random() < 0.7:
+    if arg.get('lexdir') and optclass != '-i' and 'fallback' not in optclass \
+            and rng.random() < 0.7:
         # a second argument of the same command, in the directory that the
         # lexical reading of 'ld/lnk/../x' names: what trash-put remembers
         # about one argument must not leak into the other
